@@ -340,6 +340,7 @@ def coq_case(proj, obs, ast):
 # ------------------------------------------------------------------ the check
 def run(ctx):
     ctx.prove(["Props/C19.vo", "Run/eval_C19.vo"])
+    import extractlib; extractlib.tables_tie(ctx, ['importTag'])   # literal data of the source re-proved equal to the models' (DESIGN 3.5)
     ctx.trusted_base += [
         "harness/unitrun op importseq (parse.PrimaryPackage called repeatedly in one process)",
         "harness/importast (go/parser's view of the import declarations: Doc/Comment groups, Lparen, path literal) - standard library only",
